@@ -55,12 +55,45 @@ func verifyTxs(block *types.Block, txGuard TxGuard, chainId uint16) error {
 		log.Error("Consensus verify fail: tx is appeared in parent blocks")
 		return ErrVerifyBlockFailed
 	}
+	if hasDuplicateTx(block.Txs) {
+		log.Error("Consensus verify fail: tx is appeared twice in the block")
+		return ErrVerifyBlockFailed
+	}
 	for _, tx := range block.Txs {
 		if err := tx.VerifyTxBody(chainId, uint64(block.Time()), true); err != nil {
 			return ErrVerifyBlockFailed
 		}
 	}
 	return nil
+}
+
+// hasDuplicateTx test if a transaction, or a sub transaction of a box transaction, appears more than once in the list
+func hasDuplicateTx(txs types.Transactions) bool {
+	seen := make(map[common.Hash]struct{}, len(txs))
+	isRepeated := func(hash common.Hash) bool {
+		if _, ok := seen[hash]; ok {
+			return true
+		}
+		seen[hash] = struct{}{}
+		return false
+	}
+	for _, tx := range txs {
+		if isRepeated(tx.Hash()) {
+			return true
+		}
+		if tx.Type() == params.BoxTx {
+			box, err := types.GetBox(tx.Data())
+			if err != nil {
+				continue // malformed box is rejected by VerifyTxBody
+			}
+			for _, subTx := range box.SubTxList {
+				if isRepeated(subTx.Hash()) {
+					return true
+				}
+			}
+		}
+	}
+	return false
 }
 
 // verifyHeight verify the hash of parent block
